@@ -232,8 +232,8 @@ theorem takeNums_ok (a : Bool) : ∀ (vs : List JVal) (c : Nat) (nums : List Ord
           · have := hd.1
             simp only [JVal.DocOK] at this
             cases fin with
-            | true => exact ⟨fun _ => by simpa using (this.2 rfl).1, fun h => by cases h⟩
-            | false => exact ⟨fun h => by cases h, fun _ => by simp⟩
+            | true => exact ⟨fun _ => by simpa using (this.2 rfl).1, fun h => by simp at h⟩
+            | false => exact ⟨fun h => by simp at h, fun _ => by simp⟩
           · exact ih.1 o ho
       | null =>
         unfold takeNums at h; rw [if_neg h4] at h
@@ -251,7 +251,7 @@ theorem takeNums_ok (a : Bool) : ∀ (vs : List JVal) (c : Nat) (nums : List Ord
             refine ⟨?_, by simp; omega⟩
             intro o ho
             rcases List.mem_cons.mp ho with rfl | ho
-            · exact ⟨fun h => by cases h, fun _ => rfl⟩
+            · exact ⟨fun h => by simp at h, fun _ => rfl⟩
             · exact ih.1 o ho
       | tru => unfold takeNums at h; rw [if_neg h4] at h; cases h
       | fls => unfold takeNums at h; rw [if_neg h4] at h; cases h
@@ -282,7 +282,6 @@ theorem takeNums_nodes (a : Bool) : ∀ (os : List Ord) (c : Nat), c + os.length
     rw [List.map_cons, numN, takeNums, if_neg h4]
     simp only
     have := takeNums_nodes a os (c + 1) (by simp at hc; omega) (fun o' ho' => hf o' (by simp [ho']))
-    simp only [numN] at this
     rw [this]
     have hfo := hf o (by simp)
     obtain ⟨f, v, t⟩ := o
@@ -320,5 +319,943 @@ theorem posV_posNode {p : Pos} {ex : Option Extra} {i : Nat} {ts : List String}
     exact .cons (.inr ⟨htok t (by simp), _, _, rfl⟩) (ih (fun t' ht' => htok t' (by simp [ht'])))
 
 end Nodes
+
+end Geo
+
+namespace Geo
+
+/-! ### the z/m table -/
+
+theorem mapM_getElem_range' (l : List String) (off : Nat) : ∀ (d s : Nat), off + s + d ≤ l.length →
+    (List.range' s d).mapM (fun j => l[off + j]?) = some ((l.drop (off + s)).take d)
+  | 0, s, _ => by simp
+  | d + 1, s, h => by
+    have hlt : off + s < l.length := by omega
+    rw [List.range'_succ, List.mapM_cons, mapM_getElem_range' l off d (s + 1) (by omega)]
+    simp only [List.getElem?_eq_getElem hlt, Option.bind_eq_bind, Option.bind_some, Option.pure_def, Option.some.injEq]
+    rw [List.drop_eq_getElem_cons hlt, List.take_succ_cons]
+    rfl
+
+/-- the chunk of z/m texts of position `i` -/
+def chunkOf (ex : Option Extra) (i : Nat) : List String :=
+  match ex with
+  | none => []
+  | some e => (e.values.drop (i * e.dims)).take e.dims
+
+theorem extrasAt_chunk (ex : Option Extra) (i : Nat)
+    (h : match ex with | none => True | some e => (i + 1) * e.dims ≤ e.values.length) :
+    extrasAt ex i = some (chunkOf ex i) := by
+  cases ex with
+  | none => rfl
+  | some e =>
+    simp only at h
+    simp only [extrasAt, chunkOf, List.range_eq_range']
+    have := mapM_getElem_range' e.values (i * e.dims) e.dims 0 (by rw [Nat.add_mul] at h; omega)
+    simpa using this
+
+
+end Geo
+
+namespace Geo
+
+/-! ### dimStep -/
+
+/-- the z/m texts `dimStep` appends for one position (absent ordinates are "0") -/
+def padVals (d : Nat) (nums : List Ord) : List String :=
+  (List.range d).map (fun i => match nums[2+i]? with | some o => o.canon | none => "0")
+
+theorem dimStep_none_short {st : DimSt} {nums : List Ord} {b : Bool} (hst : st.ex = none)
+    (hl : nums.length ≤ 2) : dimStep st nums b = .ok st := by
+  have : ¬ nums.length > 2 := by omega
+  simp [dimStep, hst, this, bind, Except.bind, pure, Except.pure]
+
+theorem dimStep_none_long {st : DimSt} {nums : List Ord} {b : Bool} (hst : st.ex = none)
+    (hl : nums.length > 2) :
+    dimStep st nums b =
+      if b then .ok ⟨some ⟨if nums.length > 3 then 2 else 1,
+          padVals (if nums.length > 3 then 2 else 1) nums, "", false⟩, if nums.length > 3 then 2 else 1⟩
+      else .error .coordsInvalid := by
+  cases b
+  · simp [dimStep, hst, hl, bind, Except.bind, pure, Except.pure, padVals]
+  · simp [dimStep, hst, hl, bind, Except.bind, pure, Except.pure, padVals]
+    intro a _; cases nums[2 + a]? <;> rfl
+
+theorem dimStep_some {st : DimSt} {nums : List Ord} {b : Bool} {e : Extra} (hst : st.ex = some e) :
+    dimStep st nums b = .ok { st with ex := some { e with values := e.values ++ padVals st.dims nums } } := by
+  simp [dimStep, hst, bind, Except.bind, pure, Except.pure, padVals]
+  intro a _; cases nums[2 + a]? <;> rfl
+
+theorem padVals_length (d : Nat) (nums : List Ord) : (padVals d nums).length = d := by simp [padVals]
+
+theorem padVals_tok {d : Nat} {nums : List Ord} (h : ∀ o ∈ nums, OrdOK o) :
+    ∀ t ∈ padVals d nums, t ≠ "null" → IsNumTok t.toList := by
+  intro t ht hne
+  simp only [padVals, List.mem_map, List.mem_range] at ht
+  obtain ⟨i, _, rfl⟩ := ht
+  split at hne
+  · rename_i o ho
+    exact (h o (List.mem_of_getElem? ho)).tok_of_ne hne
+  · exact numTokB_sound (by decide)
+
+/-- state invariant after `n` positions have been read -/
+def SInv (n : Nat) (st : DimSt) : Prop :=
+  st.ex = none ∨ ∃ d vals, st = ⟨some ⟨d, vals, "", false⟩, d⟩ ∧ (d = 1 ∨ d = 2) ∧
+    vals.length = n * d ∧ 0 < n ∧ ∀ t ∈ vals, t ≠ "null" → IsNumTok t.toList
+
+theorem dimStep_inv {n : Nat} {st st' : DimSt} {nums : List Ord} {b : Bool} (hinv : SInv n st)
+    (hn : ∀ o ∈ nums, OrdOK o) (hlen : nums.length ≤ 4) (hb : b = true → n = 0)
+    (h : dimStep st nums b = .ok st') : SInv (n + 1) st' := by
+  rcases hinv with hst | ⟨d, vals, rfl, hd, hlenv, hpos, htok⟩
+  · by_cases hl : nums.length > 2
+    · rw [dimStep_none_long hst hl] at h
+      cases b with
+      | false => simp at h
+      | true =>
+        simp only [if_true, Except.ok.injEq] at h
+        subst h
+        have hn0 := hb rfl
+        subst hn0
+        refine .inr ⟨_, _, rfl, ?_, ?_, by omega, padVals_tok hn⟩
+        · split <;> simp
+        · simp [padVals_length]
+    · rw [dimStep_none_short hst (by omega)] at h
+      cases h
+      exact .inl hst
+  · rw [dimStep_some rfl] at h
+    cases h
+    refine .inr ⟨d, _, rfl, hd, ?_, by omega, ?_⟩
+    · simp [padVals_length, hlenv, Nat.add_mul]
+    · intro t ht
+      rcases List.mem_append.mp ht with ht | ht
+      · exact htok t ht
+      · exact padVals_tok hn t ht
+
+/-- token facts of a parsed position -/
+def PosTok (p : Pos) : Prop := p.fin = true → IsNumTok p.xs.toList ∧ IsNumTok p.ys.toList
+
+theorem posTok_mkPos {x y : Ord} (hx : OrdOK x) (hy : OrdOK y) : PosTok (mkPos x y) := by
+  intro hf
+  simp only [mkPos, Bool.and_eq_true] at hf
+  exact ⟨hx.1 hf.1, hy.1 hf.2⟩
+
+end Geo
+
+namespace Geo
+
+/-! ### forward invariants of the coordinate loops -/
+
+theorem lineLoop_inv : ∀ (vs : List JVal) (acc : List Pos) (st : DimSt) (ps : List Pos) (st' : DimSt),
+    parseLineCoordsLoop vs acc st = .ok (ps, st') → DocOKL vs → SInv acc.length st →
+    (∀ p ∈ acc, PosTok p) → SInv ps.length st' ∧ (∀ p ∈ ps, PosTok p)
+  | [], acc, st, ps, st', h, _, hinv, hacc => by
+    simp only [parseLineCoordsLoop, Except.ok.injEq, Prod.mk.injEq] at h
+    obtain ⟨rfl, rfl⟩ := h
+    exact ⟨hinv, hacc⟩
+  | v :: vs, acc, st, ps, st', h, hd, hinv, hacc => by
+    rw [DocOKL] at hd
+    rw [parseLineCoordsLoop] at h
+    by_cases ha : v.isArray = true
+    · simp only [ha, Bool.not_true, Bool.false_eq_true, if_false, bind, Except.bind, pure, Except.pure] at h
+      cases hn : takeNums false v.elems 0 with
+      | error e => simp [hn] at h
+      | ok nums =>
+        have hno := takeNums_ok false v.elems 0 nums hn (by omega) (docOKL_iff.mpr hd.1.elems)
+        simp only [hn] at h
+        match nums, hno, h with
+        | [], _, h => simp [throw, throwThe, MonadExceptOf.throw] at h
+        | [_], _, h => simp [throw, throwThe, MonadExceptOf.throw] at h
+        | x :: y :: rest, hno, h =>
+          simp only at h
+          cases hs : dimStep st (x :: y :: rest) ((acc ++ [mkPos x y]).length == 1) with
+          | error e => rw [hs] at h; simp at h
+          | ok st1 =>
+            rw [hs] at h
+            simp only at h
+            have hinv1 := dimStep_inv hinv hno.1 (by simpa using hno.2)
+              (by simp) hs
+            have := lineLoop_inv vs (acc ++ [mkPos x y]) st1 ps st' h hd.2 (by simpa using hinv1)
+              (by
+                intro p hp
+                rcases List.mem_append.mp hp with hp | hp
+                · exact hacc p hp
+                · simp only [List.mem_singleton] at hp; subst hp
+                  exact posTok_mkPos (hno.1 x (by simp)) (hno.1 y (by simp)))
+            exact this
+    · simp [ha, bind, Except.bind, throw, throwThe, MonadExceptOf.throw] at h
+
+theorem ringLoop_inv (j n0 : Nat) (hj : j = 0 → n0 = 0) :
+    ∀ (vs : List JVal) (acc : List Pos) (st : DimSt) (r : List Pos) (st' : DimSt),
+    parseRingLoop j vs acc st = .ok (r, st') → DocOKL vs → SInv (n0 + acc.length) st →
+    (∀ p ∈ acc, PosTok p) → SInv (n0 + r.length) st' ∧ (∀ p ∈ r, PosTok p)
+  | [], acc, st, ps, st', h, _, hinv, hacc => by
+    simp only [parseRingLoop, Except.ok.injEq, Prod.mk.injEq] at h
+    obtain ⟨rfl, rfl⟩ := h
+    exact ⟨hinv, hacc⟩
+  | v :: vs, acc, st, ps, st', h, hd, hinv, hacc => by
+    rw [DocOKL] at hd
+    rw [parseRingLoop] at h
+    simp only [bind, Except.bind] at h
+    cases hn : takeNums false v.elems 0 with
+    | error e => simp [hn] at h
+    | ok nums =>
+      have hno := takeNums_ok false v.elems 0 nums hn (by omega) (docOKL_iff.mpr hd.1.elems)
+      simp only [hn] at h
+      match nums, hno, h with
+      | [], _, h => simp [throw, throwThe, MonadExceptOf.throw] at h
+      | [_], _, h => simp [throw, throwThe, MonadExceptOf.throw] at h
+      | x :: y :: rest, hno, h =>
+        simp only at h
+        cases hs : dimStep st (x :: y :: rest) (j == 0 && (acc ++ [mkPos x y]).length == 1) with
+        | error e => rw [hs] at h; simp at h
+        | ok st1 =>
+          rw [hs] at h
+          simp only at h
+          have hinv1 := dimStep_inv hinv hno.1 (by simpa using hno.2)
+            (by simp only [Bool.and_eq_true, beq_iff_eq, List.length_append, List.length_singleton]
+                intro hb; have := hj hb.1; omega) hs
+          exact ringLoop_inv j n0 hj vs (acc ++ [mkPos x y]) st1 ps st' h hd.2
+            (by simpa [Nat.add_assoc] using hinv1)
+            (by
+              intro p hp
+              rcases List.mem_append.mp hp with hp | hp
+              · exact hacc p hp
+              · simp only [List.mem_singleton] at hp; subst hp
+                exact posTok_mkPos (hno.1 x (by simp)) (hno.1 y (by simp)))
+
+/-- total number of positions -/
+def total (rs : List (List Pos)) : Nat := (rs.map List.length).sum
+
+theorem total_append (a b : List (List Pos)) : total (a ++ b) = total a + total b := by
+  simp [total]
+
+theorem polyLoop_inv : ∀ (vs : List JVal) (acc : List (List Pos)) (st : DimSt) (rings : List (List Pos))
+    (st' : DimSt), parsePolyCoordsLoop vs acc st = .ok (rings, st') → DocOKL vs → SInv (total acc) st →
+    (acc.length = 0 → total acc = 0) →
+    (∀ r ∈ acc, ∀ p ∈ r, PosTok p) → SInv (total rings) st' ∧ (∀ r ∈ rings, ∀ p ∈ r, PosTok p)
+  | [], acc, st, rings, st', h, _, hinv, _, hacc => by
+    simp only [parsePolyCoordsLoop, Except.ok.injEq, Prod.mk.injEq] at h
+    obtain ⟨rfl, rfl⟩ := h
+    exact ⟨hinv, hacc⟩
+  | v :: vs, acc, st, rings, st', h, hd, hinv, h0, hacc => by
+    rw [DocOKL] at hd
+    rw [parsePolyCoordsLoop] at h
+    by_cases ha : v.isArray = true
+    · simp only [ha, Bool.not_true, Bool.false_eq_true, if_false, bind, Except.bind] at h
+      cases hr : parseRingLoop acc.length v.elems [] st with
+      | error e => simp [hr] at h
+      | ok res =>
+        obtain ⟨ring, st1⟩ := res
+        rw [hr] at h
+        simp only at h
+        have := ringLoop_inv acc.length (total acc) h0 v.elems [] st ring st1 hr
+          (docOKL_iff.mpr hd.1.elems) (by simpa using hinv) (by simp)
+        exact polyLoop_inv vs (acc ++ [ring]) st1 rings st' h hd.2
+          (by simpa [total_append, total] using this.1) (by simp)
+          (by
+            intro r hr' p hp
+            rcases List.mem_append.mp hr' with hr' | hr'
+            · exact hacc r hr' p hp
+            · simp only [List.mem_singleton] at hr'; subst hr'; exact this.2 p hp)
+    · simp [ha, bind, Except.bind, throw, throwThe, MonadExceptOf.throw] at h
+
+
+end Geo
+
+namespace Geo
+
+/-! ### reparsing the written coordinates -/
+
+/-- shape of the `extra` a coordinate parser returns for `N` positions -/
+def TableFull (ex : Option Extra) (N : Nat) : Prop :=
+  match ex with
+  | none => True
+  | some e => (e.dims = 1 ∨ e.dims = 2) ∧ e.values.length = N * e.dims ∧ 0 < N ∧ e.members = "" ∧
+      e.hasProps = false ∧ ∀ t ∈ e.values, IsNumTok t.toList
+
+theorem tableFull_of_inv {N : Nat} {st : DimSt} (h : SInv N st) (hfin : ExFin st.ex) : TableFull st.ex N := by
+  rcases h with h | ⟨d, vals, rfl, hd, hl, hN, htok⟩
+  · rw [h]; trivial
+  · exact ⟨hd, hl, hN, rfl, rfl, fun t ht => htok t ht (hfin t ht)⟩
+
+/-- parser state after `n` written positions have been read back -/
+def stAt (ex : Option Extra) (n : Nat) : DimSt :=
+  match ex with
+  | none => {}
+  | some e => if n = 0 then {} else ⟨some { e with values := e.values.take (n * e.dims) }, e.dims⟩
+
+theorem stAt_final {ex : Option Extra} {N : Nat} (h : TableFull ex N) : (stAt ex N).ex = ex := by
+  cases ex with
+  | none => rfl
+  | some e =>
+    obtain ⟨_, hl, hN, _⟩ := h
+    have : ¬ N = 0 := by omega
+    simp only [stAt, if_neg this]
+    rw [← hl, List.take_length]
+
+theorem chunkOf_length {ex : Option Extra} {N i : Nat} (h : TableFull ex N) (hi : i < N) :
+    (chunkOf ex i).length = match ex with | none => 0 | some e => e.dims := by
+  cases ex with
+  | none => rfl
+  | some e =>
+    obtain ⟨_, hl, _⟩ := h
+    simp only [chunkOf, List.length_take, List.length_drop, hl]
+    have : (i + 1) * e.dims ≤ N * e.dims := Nat.mul_le_mul_right _ hi
+    rw [Nat.add_mul] at this
+    omega
+
+theorem chunkOf_tok {ex : Option Extra} {N i : Nat} (h : TableFull ex N) :
+    ∀ t ∈ chunkOf ex i, IsNumTok t.toList := by
+  cases ex with
+  | none => simp [chunkOf]
+  | some e =>
+    intro t ht
+    exact h.2.2.2.2.2 t (List.mem_of_mem_drop (List.mem_of_mem_take ht))
+
+theorem extrasAt_full {ex : Option Extra} {N i : Nat} (h : TableFull ex N) (hi : i < N) :
+    extrasAt ex i = some (chunkOf ex i) := by
+  apply extrasAt_chunk
+  cases ex with
+  | none => trivial
+  | some e =>
+    obtain ⟨_, hl, _⟩ := h
+    simp only [hl]
+    exact Nat.mul_le_mul_right _ hi
+
+section Nodes
+variable (vf : String → Rat) (kf : String → String)
+
+theorem padVals_posOrds (p : Pos) (ts : List String) : padVals ts.length (posOrds vf p ts) = ts := by
+  apply List.ext_getElem
+  · simp [padVals]
+  · intro i h1 h2
+    simp only [padVals, List.getElem_map, List.getElem_range, posOrds]
+    rw [Nat.add_comm 2 i]
+    simp [h2]
+
+theorem dimStep_stAt {ex : Option Extra} {N n : Nat} (hT : TableFull ex N) (hn : n < N) (p : Pos) (b : Bool)
+    (hb : n = 0 → b = true) :
+    dimStep (stAt ex n) (posOrds vf p (chunkOf ex n)) b = .ok (stAt ex (n + 1)) := by
+  have hlen := chunkOf_length hT hn
+  cases ex with
+  | none =>
+    simp only [stAt]
+    exact dimStep_none_short rfl (by simp [posOrds, chunkOf])
+  | some e =>
+    simp only at hlen
+    obtain ⟨hd, hl, hN, hm, hp, _⟩ := hT
+    have hpad := padVals_posOrds vf p (chunkOf (some e) n)
+    rw [hlen] at hpad
+    obtain ⟨d, vals, m, hpr⟩ := e
+    simp only at hd hl hm hp hlen hpad
+    subst hm hp
+    by_cases h0 : n = 0
+    · subst h0
+      have hbt := hb rfl
+      subst hbt
+      simp only [stAt, if_true]
+      rw [dimStep_none_long rfl (by simp [posOrds, hlen]; omega)]
+      have hdd : (if (posOrds vf p (chunkOf (some ⟨d, vals, "", false⟩) 0)).length > 3 then 2 else 1) = d := by
+        simp only [posOrds, List.length_cons, List.length_map, hlen]
+        rcases hd with rfl | rfl <;> simp
+      rw [hdd, hpad]
+      simp [chunkOf]
+    · have h1 : ¬ n + 1 = 0 := by omega
+      simp only [stAt, if_neg h0, if_neg h1]
+      rw [dimStep_some rfl]
+      have hpad' : padVals d (posOrds vf p (List.take d (List.drop (n * d) vals))) =
+          List.take d (List.drop (n * d) vals) := hpad
+      simp only [chunkOf, Except.ok.injEq, hpad']
+      congr 3
+      rw [Nat.add_mul, Nat.one_mul, List.take_add]
+
+/-- the written series / rings (z/m chunks taken from the table of `ex`) -/
+def seriesNodes (ex : Option Extra) : List Pos → Nat → List JVal
+  | [], _ => []
+  | p :: ps, i => posNode vf kf p (chunkOf ex i) :: seriesNodes ex ps (i + 1)
+
+def ringsNodes (ex : Option Extra) : List (List Pos) → Nat → List JVal
+  | [], _ => []
+  | r :: rs, i => .arr (seriesNodes vf kf ex r i) :: ringsNodes ex rs (i + r.length)
+
+theorem chunk_le_two {ex : Option Extra} {N n : Nat} (hT : TableFull ex N) (hn : n < N) :
+    (chunkOf ex n).length ≤ 2 := by
+  rw [chunkOf_length hT hn]
+  cases ex with
+  | none => simp
+  | some e => rcases hT.1 with h | h <;> simp [h]
+
+theorem lineLoop_nodes {ex : Option Extra} {N : Nat} (hT : TableFull ex N) :
+    ∀ (ps acc : List Pos), (∀ p ∈ ps, p.fin = true) → acc.length + ps.length ≤ N →
+    parseLineCoordsLoop (seriesNodes vf kf ex ps acc.length) acc (stAt ex acc.length) =
+      .ok (acc ++ ps, stAt ex (acc.length + ps.length))
+  | [], acc, _, _ => by simp [seriesNodes, parseLineCoordsLoop]
+  | p :: ps, acc, hf, hN => by
+    have hn : acc.length < N := by simp at hN; omega
+    rw [seriesNodes, parseLineCoordsLoop]
+    have hta := takeNums_posNode vf kf false p (chunkOf ex acc.length) (chunk_le_two hT hn)
+    simp only [posNode, JVal.isArray, Bool.not_true, Bool.false_eq_true, if_false, bind, Except.bind]
+    simp only [posNode] at hta
+    rw [hta]
+    simp only [posOrds]
+    rw [mkPos_posOrds p (hf p (by simp))]
+    have hs := dimStep_stAt vf hT hn p ((acc ++ [p]).length == 1) (by simp)
+    simp only [posOrds] at hs
+    rw [hs]
+    have := lineLoop_nodes hT ps (acc ++ [p]) (fun q hq => hf q (by simp [hq])) (by simp at hN ⊢; omega)
+    simp only [List.length_append, List.length_singleton] at this
+    simp only [this, List.append_assoc, List.singleton_append, List.length_cons]
+    congr 3
+    omega
+
+theorem ringLoop_nodes {ex : Option Extra} {N : Nat} (hT : TableFull ex N) (j n0 : Nat) (hj : n0 = 0 → j = 0) :
+    ∀ (ps acc : List Pos), (∀ p ∈ ps, p.fin = true) → n0 + acc.length + ps.length ≤ N →
+    parseRingLoop j (seriesNodes vf kf ex ps (n0 + acc.length)) acc (stAt ex (n0 + acc.length)) =
+      .ok (acc ++ ps, stAt ex (n0 + acc.length + ps.length))
+  | [], acc, _, _ => by simp [seriesNodes, parseRingLoop]
+  | p :: ps, acc, hf, hN => by
+    have hn : n0 + acc.length < N := by simp at hN; omega
+    rw [seriesNodes, parseRingLoop]
+    have hta := takeNums_posNode vf kf false p (chunkOf ex (n0 + acc.length)) (chunk_le_two hT hn)
+    simp only [bind, Except.bind]
+    rw [hta]
+    simp only [posOrds]
+    rw [mkPos_posOrds p (hf p (by simp))]
+    have hs := dimStep_stAt vf hT hn p (j == 0 && (acc ++ [p]).length == 1)
+      (by intro h0; have h1 : n0 = 0 := by omega
+          have h2 : acc.length = 0 := by omega
+          simp [hj h1, h2])
+    simp only [posOrds] at hs
+    rw [hs]
+    have := ringLoop_nodes hT j n0 hj ps (acc ++ [p]) (fun q hq => hf q (by simp [hq])) (by simp at hN ⊢; omega)
+    simp only [List.length_append, List.length_singleton, ← Nat.add_assoc] at this
+    simp only [this, List.append_assoc, List.singleton_append, List.length_cons]
+    congr 3
+    omega
+
+end Nodes
+end Geo
+
+namespace Geo
+section Nodes
+variable (vf : String → Rat) (kf : String → String)
+
+theorem polyLoop_nodes {ex : Option Extra} {N : Nat} (hT : TableFull ex N) :
+    ∀ (rs acc : List (List Pos)), (∀ r ∈ rs, r ≠ [] ∧ ∀ p ∈ r, p.fin = true) →
+    total acc + total rs ≤ N → (total acc = 0 → acc.length = 0) →
+    parsePolyCoordsLoop (ringsNodes vf kf ex rs (total acc)) acc (stAt ex (total acc)) =
+      .ok (acc ++ rs, stAt ex (total acc + total rs))
+  | [], acc, _, _, _ => by simp [ringsNodes, parsePolyCoordsLoop, total]
+  | r :: rs, acc, hf, hN, h0 => by
+    have htr : total (r :: rs) = r.length + total rs := by simp [total]
+    rw [ringsNodes, parsePolyCoordsLoop]
+    simp only [JVal.isArray, Bool.not_true, Bool.false_eq_true, if_false, bind, Except.bind, JVal.elems]
+    have hr := ringLoop_nodes vf kf hT acc.length (total acc) h0 r [] (hf r (by simp)).2
+      (by simp; omega)
+    simp only [List.length_nil, Nat.add_zero, List.nil_append] at hr
+    rw [hr]
+    simp only
+    have hne : 0 < r.length := List.length_pos_iff.mpr (hf r (by simp)).1
+    have e1 : total (acc ++ [r]) = total acc + r.length := by simp [total_append, total]
+    rw [htr] at hN
+    have := polyLoop_nodes hT rs (acc ++ [r]) (fun q hq => hf q (by simp [hq]))
+      (by rw [e1]; omega)
+      (by rw [e1]; omega)
+    rw [e1] at this
+    rw [this]
+    simp only [List.append_assoc, List.singleton_append, htr, Nat.add_assoc]
+
+theorem seriesV_nodes {ex ex' : Option Extra} {N : Nat} (hT : TableFull ex N)
+    (hex : ∀ i, extrasAt ex' i = extrasAt ex i) :
+    ∀ (ps : List Pos) (i : Nat), (∀ p ∈ ps, p.fin = true ∧ PosTok p) → i + ps.length ≤ N →
+    SeriesV ex' ps i (seriesNodes vf kf ex ps i)
+  | [], _, _, _ => rfl
+  | p :: ps, i, hp, hN => by
+    have hi : i < N := by simp at hN; omega
+    have hpp := hp p (by simp)
+    refine ⟨_, _, rfl, ?_, seriesV_nodes hT hex ps (i + 1) (fun q hq => hp q (by simp [hq]))
+      (by simp at hN; omega)⟩
+    exact posV_posNode vf kf (hpp.2 hpp.1).1 (hpp.2 hpp.1).2 (by rw [hex, extrasAt_full hT hi])
+      (chunkOf_tok hT)
+
+theorem ringsV_nodes {ex ex' : Option Extra} {N : Nat} (hT : TableFull ex N)
+    (hex : ∀ i, extrasAt ex' i = extrasAt ex i) :
+    ∀ (rs : List (List Pos)) (i : Nat), (∀ r ∈ rs, ∀ p ∈ r, p.fin = true ∧ PosTok p) → i + total rs ≤ N →
+    RingsV ex' rs i (ringsNodes vf kf ex rs i)
+  | [], _, _, _ => rfl
+  | r :: rs, i, hp, hN => by
+    have htr : total (r :: rs) = r.length + total rs := by simp [total]
+    exact ⟨_, _, rfl, seriesV_nodes vf kf hT hex r i (hp r (by simp)) (by omega),
+      ringsV_nodes hT hex rs (i + r.length) (fun q hq => hp q (by simp [hq])) (by omega)⟩
+
+end Nodes
+
+theorem extrasAt_withMembers (ex : Option Extra) (k : Keys) (i : Nat) :
+    extrasAt (withMembers ex k) i = extrasAt ex i := by
+  unfold withMembers
+  split
+  · rfl
+  · cases ex with
+    | none => simp [extrasAt]
+    | some e => rfl
+
+/-- `members`/`hasProps` of an object's `extra` -/
+def exMembers' (ex : Option Extra) : String := match ex with | none => "" | some e => e.members
+
+theorem withMembers_members {ex : Option Extra} (k : Keys) (h : exMembers' ex = "") :
+    exMembers' (withMembers ex k) = k.members := by
+  unfold withMembers
+  split
+  · rename_i hk
+    simp only [beq_iff_eq] at hk
+    rw [hk]; exact h
+  · cases ex <;> rfl
+
+/-! ### the three coordinate parsers: forward facts and round trip -/
+
+theorem parseLineCoords_fwd {rc : JVal} {ps : List Pos} {ex : Option Extra}
+    (h : parseLineCoords rc = .ok (ps, ex)) (hd : rc.DocOK) (hfin : ExFin ex) :
+    TableFull ex ps.length ∧ ∀ p ∈ ps, PosTok p := by
+  unfold parseLineCoords at h
+  cases hl : parseLineCoordsLoop rc.elems [] {} with
+  | error e => simp [hl, bind, Except.bind] at h
+  | ok res =>
+    obtain ⟨ps', st⟩ := res
+    simp only [hl, bind, Except.bind, pure, Except.pure, Except.ok.injEq, Prod.mk.injEq] at h
+    obtain ⟨rfl, rfl⟩ := h
+    have := lineLoop_inv rc.elems [] {} ps' st hl (docOKL_iff.mpr hd.elems) (.inl rfl) (by simp)
+    exact ⟨tableFull_of_inv this.1 hfin, this.2⟩
+
+theorem parsePolyCoords_fwd {rc : JVal} {rings : List (List Pos)} {ex : Option Extra}
+    (h : parsePolyCoords rc = .ok (rings, ex)) (hd : rc.DocOK) (hfin : ExFin ex) :
+    TableFull ex (total rings) ∧ ∀ r ∈ rings, ∀ p ∈ r, PosTok p := by
+  unfold parsePolyCoords at h
+  cases hl : parsePolyCoordsLoop rc.elems [] {} with
+  | error e => simp [hl, bind, Except.bind] at h
+  | ok res =>
+    obtain ⟨rs', st⟩ := res
+    simp only [hl, bind, Except.bind, pure, Except.pure, Except.ok.injEq, Prod.mk.injEq] at h
+    obtain ⟨rfl, rfl⟩ := h
+    have := polyLoop_inv rc.elems [] {} rs' st hl (docOKL_iff.mpr hd.elems) (.inl rfl) (by simp [total])
+      (by simp)
+    exact ⟨tableFull_of_inv this.1 hfin, this.2⟩
+
+section Nodes
+variable (vf : String → Rat) (kf : String → String)
+
+theorem parseLineCoords_nodes {ex : Option Extra} {ps : List Pos} (hT : TableFull ex ps.length)
+    (hf : ∀ p ∈ ps, p.fin = true) :
+    parseLineCoords (.arr (seriesNodes vf kf ex ps 0)) = .ok (ps, ex) := by
+  have := lineLoop_nodes vf kf hT ps [] hf (by simp)
+  simp only [List.length_nil, Nat.zero_add, List.nil_append] at this
+  have h0 : stAt ex 0 = {} := by cases ex <;> simp [stAt]
+  rw [h0] at this
+  simp [parseLineCoords, JVal.elems, this, bind, Except.bind, pure, Except.pure, stAt_final hT]
+
+theorem parsePolyCoords_nodes {ex : Option Extra} {rings : List (List Pos)} (hT : TableFull ex (total rings))
+    (hf : ∀ r ∈ rings, r ≠ [] ∧ ∀ p ∈ r, p.fin = true) :
+    parsePolyCoords (.arr (ringsNodes vf kf ex rings 0)) = .ok (rings, ex) := by
+  have := polyLoop_nodes vf kf hT rings [] hf (by simp [total]) (by simp)
+  have ht0 : total [] = 0 := rfl
+  simp only [ht0, Nat.zero_add, List.nil_append] at this
+  have h0 : stAt ex 0 = {} := by cases ex <;> simp [stAt]
+  rw [h0] at this
+  simp [parsePolyCoords, JVal.elems, this, bind, Except.bind, pure, Except.pure, stAt_final hT]
+
+end Nodes
+end Geo
+
+namespace Geo
+
+/-- the `extra` of a parsed point with z/m texts `ts` -/
+def pointEx (ts : List String) : Option Extra :=
+  if ts.isEmpty then none else some ⟨ts.length, ts, "", false⟩
+
+theorem parsePointCoords_fwd {rc : JVal} {pos : Pos} {ex : Option Extra}
+    (h : parsePointCoords rc = .ok (pos, ex)) (hd : rc.DocOK) (hfin : pos.fin = true) (hex : ExFin ex) :
+    ∃ ts, ts.length ≤ 2 ∧ ex = pointEx ts ∧ (∀ t ∈ ts, IsNumTok t.toList) ∧
+      IsNumTok pos.xs.toList ∧ IsNumTok pos.ys.toList := by
+  unfold parsePointCoords at h
+  cases hn : takeNums true rc.elems 0 with
+  | error e => simp [hn, bind, Except.bind] at h
+  | ok nums =>
+    have hno := takeNums_ok true rc.elems 0 nums hn (by omega) (docOKL_iff.mpr hd.elems)
+    simp only [hn, bind, Except.bind] at h
+    match nums, hno, h with
+    | [], _, h => simp at h
+    | [_], _, h => simp at h
+    | x :: y :: rest, hno, h =>
+      simp only [pure, Except.pure, Except.ok.injEq, Prod.mk.injEq] at h
+      obtain ⟨rfl, rfl⟩ := h
+      have hxy := posTok_mkPos (hno.1 x (by simp)) (hno.1 y (by simp)) hfin
+      refine ⟨rest.map (·.canon), by simpa using hno.2, by simp [pointEx], ?_, hxy.1, hxy.2⟩
+      intro t ht
+      simp only [List.mem_map] at ht
+      obtain ⟨o, ho, rfl⟩ := ht
+      have hne : o.canon ≠ "null" := by
+        by_cases hr : rest.isEmpty = true
+        · simp only [List.isEmpty_iff] at hr; subst hr; cases ho
+        · simp only [hr] at hex
+          exact hex o.canon (by simp; exact ⟨o, ho, rfl⟩)
+      exact (hno.1 o (by simp [ho])).tok_of_ne hne
+
+theorem extrasAt_pointEx (ts : List String) : extrasAt (pointEx ts) 0 = some ts := by
+  unfold pointEx
+  split
+  · rename_i h; simp only [List.isEmpty_iff] at h; subst h; rfl
+  · simp only [extrasAt, List.range_eq_range']
+    have := mapM_getElem_range' ts 0 ts.length 0 (by omega)
+    simpa using this
+
+section Nodes
+variable (vf : String → Rat) (kf : String → String)
+
+theorem parsePointCoords_nodes (pos : Pos) (ts : List String) (hl : ts.length ≤ 2) (hf : pos.fin = true) :
+    parsePointCoords (posNode vf kf pos ts) = .ok (pos, pointEx ts) := by
+  unfold parsePointCoords
+  rw [takeNums_posNode vf kf true pos ts hl]
+  simp only [posOrds, bind, Except.bind, pure, Except.pure]
+  rw [mkPos_posOrds pos hf]
+  simp [pointEx, Function.comp_def]
+
+end Nodes
+
+/-! ### `"properties":{}` normal form -/
+
+/-- the `extra` of a Feature after one write/parse round: `"properties":{}` has been appended
+    to the foreign members if there was no `properties` member -/
+def addPropsEx (ex : Option Extra) : Option Extra :=
+  if needProps ex true then
+    match ex with
+    | none => some ⟨0, [], "{\"properties\":{}}", true⟩
+    | some e =>
+      if e.members = "" then some { e with members := "{\"properties\":{}}", hasProps := true }
+      else some { e with members := "{" ++ ((e.members.drop 1).dropEnd 1).toString ++ ",\"properties\":{}}",
+                         hasProps := true }
+  else ex
+
+mutual
+/-- the object after one write/parse round: every Feature without a `properties` member got
+    `"properties":{}`; nothing else changes -/
+def addProps : Obj → Obj
+  | .feature b ex => .feature (addProps b) (addPropsEx ex)
+  | .coll k cs ex idx => .coll k (addPropsL cs) ex idx
+  | o => o
+def addPropsL : List Obj → List Obj
+  | [] => []
+  | c :: cs => addProps c :: addPropsL cs
+end
+
+theorem addPropsL_eq_map : ∀ cs, addPropsL cs = cs.map addProps
+  | [] => rfl
+  | c :: cs => by rw [addPropsL, addPropsL_eq_map cs]; rfl
+
+mutual
+theorem addProps_empty : ∀ x : Obj, (addProps x).empty = x.empty
+  | .point _ _ => rfl
+  | .spoint _ => rfl
+  | .lineString _ _ _ => rfl
+  | .polygon _ _ _ => rfl
+  | .rectO _ _ _ => rfl
+  | .circle _ _ => rfl
+  | .feature b _ => by simp only [addProps, Obj.empty]; exact addProps_empty b
+  | .coll _ cs _ _ => by simp only [addProps, Obj.empty]; exact addPropsL_allEmpty cs
+theorem addPropsL_allEmpty : ∀ cs : List Obj, Obj.allEmpty (addPropsL cs) = Obj.allEmpty cs
+  | [] => rfl
+  | c :: cs => by simp only [addPropsL, Obj.allEmpty, addProps_empty c, addPropsL_allEmpty cs]
+end
+
+theorem mkColl_addProps (o : POpts) (k : CollKind) (cs : List Obj) (ex : Option Extra) :
+    mkColl o k (addPropsL cs) ex = addProps (mkColl o k cs ex) := by
+  have hf : List.filter ((fun c => !c.empty) ∘ addProps) cs = List.filter (fun c => !c.empty) cs := by
+    apply List.filter_congr
+    intro c _
+    simp [addProps_empty]
+  simp only [mkColl, addProps, addPropsL_eq_map, List.filter_map, List.length_map, hf]
+
+/-- same kind of object -/
+def kindEq : Obj → Obj → Prop
+  | .point _ _, .point _ _ => True
+  | .spoint _, .spoint _ => True
+  | .lineString _ _ _, .lineString _ _ _ => True
+  | .polygon _ _ _, .polygon _ _ _ => True
+  | .rectO _ _ _, .rectO _ _ _ => True
+  | .coll k _ _ _, .coll k' _ _ _ => k = k'
+  | .feature _ _, .feature _ _ => True
+  | .circle _ _, .circle _ _ => True
+  | _, _ => False
+
+theorem kindEq_addProps (x : Obj) : kindEq x (addProps x) := by
+  cases x <;> simp [addProps, kindEq]
+
+end Geo
+
+namespace Geo
+set_option linter.unusedVariables false
+
+/-! ### `parse` split by type (bodies copied from GeoModel.Json, `k = scanKeys ms`) -/
+
+def parsePointK (o : POpts) (fuel : Nat) (k : Keys) : Except PErr Obj :=
+  match k.coordinates with
+  | none => .error .coordsMissing
+  | some rc =>
+    if !rc.isArray then .error .coordsInvalid
+    else match parsePointCoords rc with
+      | .error e => .error e
+      | .ok (pos, ex) =>
+        let ex := withMembers ex k
+        let ob : Obj := if ex.isNone && o.allowSimplePoints then .spoint pos else .point pos ex
+        if o.requireValid && !ob.valid then .error .coordsInvalid else .ok ob
+
+def parseLineStringK (o : POpts) (fuel : Nat) (k : Keys) : Except PErr Obj :=
+  match reqArray k.coordinates .coordsMissing .coordsInvalid with
+  | .error e => .error e
+  | .ok rc =>
+    match parseLineCoords rc with
+    | .error e => .error e
+    | .ok (ps, ex) =>
+      if ps.length < 2 then .error .coordsInvalid
+      else
+        let ob : Obj := .lineString (mkLine o ps) ps (withMembers ex k)
+        if o.requireValid && !ob.valid then .error .dataInvalid else .ok ob
+
+def parsePolygonK (o : POpts) (fuel : Nat) (k : Keys) : Except PErr Obj :=
+  match reqArray k.coordinates .coordsMissing .coordsInvalid with
+  | .error e => .error e
+  | .ok rc =>
+    match parsePolyCoords rc with
+    | .error e => .error e
+    | .ok (rings, ex) =>
+      if rings.isEmpty || !(rings.all ringOK) then .error .coordsInvalid
+      else
+        let ex := withMembers ex k
+        let ob : Obj :=
+          match rings with
+          | [e] =>
+            if ex.isNone && o.allowRects && isRectRing e then
+              match e with
+              | [p0, _, p2, _, _] => .rectO ⟨p0.p, p2.p⟩ p0 p2
+              | _ => .polygon (mkPoly o rings) rings ex
+            else .polygon (mkPoly o rings) rings ex
+          | _ => .polygon (mkPoly o rings) rings ex
+        if o.requireValid && !ob.valid then .error .coordsInvalid else .ok ob
+
+def parseMultiPointK (o : POpts) (fuel : Nat) (k : Keys) : Except PErr Obj :=
+  match reqArray k.coordinates .coordsMissing .coordsInvalid with
+  | .error e => .error e
+  | .ok rc =>
+    match rc.elems.mapM (fun v => parsePointCoords v) with
+    | .error e => .error e
+    | .ok cs =>
+      let children : List Obj := cs.map (fun c => Obj.point c.1 c.2)
+      if o.requireValid && !(children.all Obj.valid) then .error .coordsInvalid
+      else .ok (mkColl o .multiPoint children (withMembers none k))
+
+def parseMultiLineStringK (o : POpts) (fuel : Nat) (k : Keys) : Except PErr Obj :=
+  match reqArray k.coordinates .coordsMissing .coordsInvalid with
+  | .error e => .error e
+  | .ok rc =>
+    match rc.elems.mapM (fun v => do
+        let (ps, ex) ← parseLineCoords v
+        if ps.length < 2 then throw PErr.coordsInvalid
+        pure (Obj.lineString (mkLine o ps) ps ex)) with
+    | .error e => .error e
+    | .ok children =>
+      let ob := mkColl o .multiLineString children (withMembers none k)
+      if o.requireValid && !ob.valid then .error .coordsInvalid else .ok ob
+
+def parseMultiPolygonK (o : POpts) (fuel : Nat) (k : Keys) : Except PErr Obj :=
+  match reqArray k.coordinates .coordsMissing .coordsInvalid with
+  | .error e => .error e
+  | .ok rc =>
+    match rc.elems.mapM (fun v => do
+        let (rings, ex) ← parsePolyCoords v
+        if rings.isEmpty || !(rings.all ringOK) then throw PErr.coordsInvalid
+        pure (Obj.polygon (mkPoly o rings) rings ex)) with
+    | .error e => .error e
+    | .ok children =>
+      let ob := mkColl o .multiPolygon children (withMembers none k)
+      if o.requireValid && !ob.valid then .error .coordsInvalid else .ok ob
+
+def parseGeometryCollectionK (o : POpts) (fuel : Nat) (k : Keys) : Except PErr Obj :=
+  match reqArray k.geometries .geometriesMissing .geometriesInvalid with
+  | .error e => .error e
+  | .ok (.arr items) =>
+    match parseList o fuel items with
+    | .error e => .error e
+    | .ok children => .ok (mkColl o .geometryCollection children (withMembers none k))
+  | .ok _ => .error .geometriesInvalid
+
+def parseFeatureCollectionK (o : POpts) (fuel : Nat) (k : Keys) : Except PErr Obj :=
+  match reqArray k.features .featuresMissing .featuresInvalid with
+  | .error e => .error e
+  | .ok (.arr items) =>
+    match parseList o fuel items with
+    | .error e => .error e
+    | .ok children => .ok (mkColl o .featureCollection children (withMembers none k))
+  | .ok _ => .error .featuresInvalid
+
+def parseFeatureK (o : POpts) (fuel : Nat) (k : Keys) : Except PErr Obj :=
+  match k.geometry with
+  | none => .error .geometryMissing
+  | some g =>
+    match parse o fuel g with
+    | .error e => .error e
+    | .ok base =>
+      let ex := withMembers none k
+      let centre : Option Pos := match base with
+        | .point pos _ => some pos
+        | .spoint pos => some pos
+        | _ => none
+      match centre, ex with
+      | some c, some _ =>
+        let props := (JVal.obj k.foreign).get "properties"
+        let ptype := props.bind (fun p => p.get "type")
+        if !o.disableCircle && (match ptype with | some (.str _ "Circle") => true | _ => false) then
+          let radius := props.bind (fun p => p.get "radius")
+          let units := strOf (props.bind (fun p => p.get "radius_units"))
+          -- radius.Float(): numbers as they are, true = 1, strings are parsed (unmodelled), else 0
+          let rtexts : Option (String × String) := match radius with
+            | some (.num fin _ canon canonK _) => if fin then some (canon, canonK) else some ("null", "null")
+            | some .tru => some ("1", "1000")
+            | some (.str _ _) => none
+            | _ => some ("0", "0")
+          match rtexts with
+          | none => .error .unmodelled
+          | some (m, km) =>
+            if units == "" || units == "m" then .ok (.circle c m)
+            else if units == "km" then .ok (.circle c km)
+            else .error .circleUnits
+        else .ok (.feature base ex)
+      | _, _ => .ok (.feature base ex)
+
+def parseTyped (o : POpts) (fuel : Nat) (k : Keys) (ty : String) : Except PErr Obj :=
+  match ty with
+  | "Point" => parsePointK o fuel k
+  | "LineString" => parseLineStringK o fuel k
+  | "Polygon" => parsePolygonK o fuel k
+  | "MultiPoint" => parseMultiPointK o fuel k
+  | "MultiLineString" => parseMultiLineStringK o fuel k
+  | "MultiPolygon" => parseMultiPolygonK o fuel k
+  | "GeometryCollection" => parseGeometryCollectionK o fuel k
+  | "FeatureCollection" => parseFeatureCollectionK o fuel k
+  | "Feature" => parseFeatureK o fuel k
+  | _ => .error .typeUnknown
+
+theorem parse_obj_str (o : POpts) (f : Nat) (ms : List Member) (r ty : String)
+    (h : (scanKeys ms).type = some (.str r ty)) :
+    parse o (f + 1) (.obj ms) = parseTyped o f (scanKeys ms) ty := by
+  rw [parse, h]
+  rfl
+
+end Geo
+
+namespace Geo
+
+/-! ### parsing a written object -/
+
+theorem scanKeys_coords (ty : String) (c : JVal) (fm : List Member)
+    (hfm : ∀ m ∈ fm, isSpecialKey m.2.1 = false) :
+    scanKeys (mem "type" (strV ty) :: mem "coordinates" c :: fm) =
+      { type := some (strV ty), coordinates := some c, foreign := fm } := by
+  rw [scanKeys_written _ _ _ _ hfm]; rfl
+
+theorem scanKeys_geometries (ty : String) (c : JVal) (fm : List Member)
+    (hfm : ∀ m ∈ fm, isSpecialKey m.2.1 = false) :
+    scanKeys (mem "type" (strV ty) :: mem "geometries" c :: fm) =
+      { type := some (strV ty), geometries := some c, foreign := fm } := by
+  rw [scanKeys_written _ _ _ _ hfm]; rfl
+
+theorem scanKeys_features (ty : String) (c : JVal) (fm : List Member)
+    (hfm : ∀ m ∈ fm, isSpecialKey m.2.1 = false) :
+    scanKeys (mem "type" (strV ty) :: mem "features" c :: fm) =
+      { type := some (strV ty), features := some c, foreign := fm } := by
+  rw [scanKeys_written _ _ _ _ hfm]; rfl
+
+theorem scanKeys_geometry (ty : String) (c : JVal) (fm : List Member)
+    (hfm : ∀ m ∈ fm, isSpecialKey m.2.1 = false) :
+    scanKeys (mem "type" (strV ty) :: mem "geometry" c :: fm) =
+      { type := some (strV ty), geometry := some c, foreign := fm } := by
+  rw [scanKeys_written _ _ _ _ hfm]; rfl
+
+theorem parse_mkObj_coords (o : POpts) (g : Nat) (ty : String) (c : JVal) (fm : List Member)
+    (hfm : ∀ m ∈ fm, isSpecialKey m.2.1 = false) :
+    parse o (g + 1) (mkObj ty "coordinates" c fm) =
+      parseTyped o g { type := some (strV ty), coordinates := some c, foreign := fm } ty := by
+  rw [mkObj, parse_obj_str _ _ _ ("\"" ++ ty ++ "\"") ty (by rw [scanKeys_coords _ _ _ hfm]; rfl),
+    scanKeys_coords _ _ _ hfm]
+
+theorem parse_mkObj_geometries (o : POpts) (g : Nat) (ty : String) (c : JVal) (fm : List Member)
+    (hfm : ∀ m ∈ fm, isSpecialKey m.2.1 = false) :
+    parse o (g + 1) (mkObj ty "geometries" c fm) =
+      parseTyped o g { type := some (strV ty), geometries := some c, foreign := fm } ty := by
+  rw [mkObj, parse_obj_str _ _ _ ("\"" ++ ty ++ "\"") ty (by rw [scanKeys_geometries _ _ _ hfm]; rfl),
+    scanKeys_geometries _ _ _ hfm]
+
+theorem parse_mkObj_features (o : POpts) (g : Nat) (ty : String) (c : JVal) (fm : List Member)
+    (hfm : ∀ m ∈ fm, isSpecialKey m.2.1 = false) :
+    parse o (g + 1) (mkObj ty "features" c fm) =
+      parseTyped o g { type := some (strV ty), features := some c, foreign := fm } ty := by
+  rw [mkObj, parse_obj_str _ _ _ ("\"" ++ ty ++ "\"") ty (by rw [scanKeys_features _ _ _ hfm]; rfl),
+    scanKeys_features _ _ _ hfm]
+
+theorem parse_mkObj_geometry (o : POpts) (g : Nat) (ty : String) (c : JVal) (fm : List Member)
+    (hfm : ∀ m ∈ fm, isSpecialKey m.2.1 = false) :
+    parse o (g + 1) (mkObj ty "geometry" c fm) =
+      parseTyped o g { type := some (strV ty), geometry := some c, foreign := fm } ty := by
+  rw [mkObj, parse_obj_str _ _ _ ("\"" ++ ty ++ "\"") ty (by rw [scanKeys_geometry _ _ _ hfm]; rfl),
+    scanKeys_geometry _ _ _ hfm]
+
+theorem withMembers_congr (ex : Option Extra) {k k' : Keys} (h : k'.foreign = k.foreign) :
+    withMembers ex k' = withMembers ex k := by
+  have hm : k'.members = k.members := by simp [Keys.members, h]
+  have hp : k'.hasProps = k.hasProps := by simp [Keys.hasProps, h]
+  unfold withMembers
+  rw [hm, hp]
+
+theorem ExFin_withMembers {ex : Option Extra} {k : Keys} (h : ExFin (withMembers ex k)) : ExFin ex := by
+  unfold withMembers at h
+  split at h
+  · exact h
+  · cases ex with
+    | none => trivial
+    | some e => exact h
+
+theorem keys_members_ne {k : Keys} (h : k.foreign ≠ []) : k.members ≠ "" := by
+  simp only [Keys.members, List.isEmpty_iff, h, if_false]
+  intro h0
+  have := congrArg String.toList h0
+  simp at this
+
+theorem keys_members_eq {k : Keys} (h : k.foreign = []) : k.members = "" := by
+  simp [Keys.members, h]
+
+/-- the foreign members of the parsed document are what the writers emit for `withMembers ex k` -/
+theorem membersV_withMembers {ex : Option Extra} {k : Keys} (hex : exMembers' ex = "")
+    (hd : DocOKM k.foreign) : MembersV (withMembers ex k) false k.foreign := by
+  refine ⟨k.foreign, docOKM_tokOK hd, ?_, by simp [needProps]⟩
+  by_cases hf : k.foreign = []
+  · have hm := keys_members_eq hf
+    simp only [withMembers, hm, beq_self_eq_true, if_true]
+    cases ex with
+    | none => exact hf
+    | some e => simp only [exMembers'] at hex; simp [hex, hf]
+  · have hm := keys_members_ne hf
+    have hb : (k.members == "") = false := by simpa using hm
+    simp only [withMembers, hb, Bool.false_eq_true, if_false]
+    cases ex with
+    | none => simp only [hm, if_false]; exact ⟨hf, by simp [Keys.members, hf]⟩
+    | some e => simp only [hm, if_false]; exact ⟨hf, by simp [Keys.members, hf]⟩
+
+theorem withMembers_isNone {ex : Option Extra} {k : Keys} (h : (withMembers ex k).isNone = true) :
+    ex = none ∧ k.foreign = [] := by
+  unfold withMembers at h
+  split at h
+  · rename_i hk
+    simp only [beq_iff_eq] at hk
+    refine ⟨by simpa using h, ?_⟩
+    by_cases hf : k.foreign = []
+    · exact hf
+    · exact absurd hk (keys_members_ne hf)
+  · cases ex <;> simp at h
 
 end Geo
